@@ -9,5 +9,5 @@ CONSTANTS
   OpsAtEnd = 2
   Interleave = TRUE
   BadArgs = TRUE
-  Iters = FALSE
+  Iters = TRUE
 CHECK_DEADLOCK FALSE
